@@ -91,6 +91,10 @@ def enum_wire():
     for pos in range(2, 7):
         c7 = [0x80, 7, 0, 0, 0, 0, 0, 1]; c7[pos] = 1; chunks.append(c7)
         c9 = [0x80, 9, 0, 0, 0, 0, 0, 1]; c9[pos] = 255; chunks.append(c9)
+    # every typed category with all-ones / all-zero fields (the u8 / u16 / u32 edges of each field)
+    for t in (0x00, 0x40, 0x01, 0x41, 0x02, 0x42, 0x0c, 0x4c, 0x80, 0xc0, 0x81, 0xc1, 0x82, 0xc2, 0x03, 0xff):
+        for st in (0, 2, 6, 7, 8, 9, 255):
+            chunks.append([t, st] + [255] * 6); chunks.append([t, st] + [0] * 6)
     for k in range(0, len(chunks), 24):
         data = [b for ch in chunks[k:k + 24] for b in ch]
         out.append(wire('wire:extcom_grid', T | O, 16, data))
